@@ -948,6 +948,15 @@ func (dsc *dataStoreCommand) restore(keyName, serializedData string, ttl int64, 
 		return
 	}
 
+	// DUMP serialises string values only (length + 1, then the bytes): a payload of another
+	// type, or one whose length does not fit its content, is refused - it used to create a key
+	// that no command can read, or to slice beyond the payload
+	size := binary.BigEndian.Uint32(content[2:6])
+	if !flagHasOne(bitflags(content[1]), FLAG_KEY_TYPE_STRING) || size == 0 || int64(size)-1 > int64(len(content)-6) {
+		output.data = respErrorString("ERR Bad data format")
+		return
+	}
+
 	var expiration time.Time
 	if ttl != 0 {
 		if absttl {
@@ -970,11 +979,7 @@ func (dsc *dataStoreCommand) restore(keyName, serializedData string, ttl int64, 
 		}
 	}
 
-	len := binary.BigEndian.Uint32(content[2:6])
-	var serialBytes []byte
-	if len > 0 {
-		serialBytes = content[6 : 6+len-1]
-	}
+	serialBytes := append([]byte{}, content[6:6+size-1]...)
 
 	newSk := dsc.ds.newStoreKeyUnlocked(keyName)
 	newSk.flags = bitflags(content[1])
